@@ -165,7 +165,7 @@ def real_models(rng, quick):
     from rpylib.model.levymodel.purejump.variancegamma import VGParameters, VarianceGammaModel
     u = rng.uniform
     out = []
-    reps = 1 if quick else 4
+    reps = 1 if quick else 8
 
     def via_updates(cls, names, start, final):
         """the parameters reach their final values the way the calibration does it: a copy of other parameters is
